@@ -118,7 +118,7 @@ func c03Lens(name string, d consts.ActiveSafetyType) []int {
 	}
 	max, capped := 40, false
 	if vrt_Tier() > 0 {
-		max = 70
+		max = 50
 	}
 	if c, ok := c03Caps[name]; ok {
 		max, capped = c[vrt_Tier()], true
@@ -130,7 +130,7 @@ func c03Lens(name string, d consts.ActiveSafetyType) []int {
 		return l
 	}
 	if vrt_Tier() > 0 {
-		l = append(l, 255, 256, 257, 290, 291, 300, 512, 1000, 1023)
+		l = append(l, 62, 63, 64, 105, 255, 256, 257, 291, 1023)
 	} else {
 		l = append(l, 62, 63, 64, 105, 291)
 	}
@@ -205,7 +205,7 @@ func VerifC03History() {
 	ti, ver, d := c03Pick()
 	lens := []int{5, 7, 36, 62}
 	if vrt_Tier() > 0 {
-		lens = []int{0, 1, 2, 5, 7, 12, 28, 33, 36, 47, 62, 105}
+		lens = []int{0, 1, 2, 5, 7, 12, 36, 62, 105}
 	}
 	if c, ok := c03Caps[ti.Name]; ok {
 		// TLV / count-driven parsers: stay within the type's dense bound
